@@ -455,6 +455,73 @@ def directed_roundtrips(ck, adapter, n):
     check_roundtrip(ck, [gen_case(ck.rng, adapter) for _ in range(n)])
 
 
+# ------------------------------------------------------------------ sessions
+def session_cases(ck, n):
+    """whole sessions with a scripted process: what reaches the data file (observe_at: measurement lines)"""
+    import drive
+    for idx in range(n):
+        adapter = ck.rng.choice(['ReBenchLog', 'JMH', 'PlainSecondsLog', 'SavinaLog', 'ValidationLog'])
+        n_inv = ck.rng.choice([1, 2, 3])
+        cases = []
+        while len(cases) < n_inv:
+            c = gen_case(ck.rng, adapter)
+            # criteria / units with a tab or CR do not survive the data file (C07's finding): keep them out
+            if c['k'] <= 6 and not any('\t' in m[2] or '\t' in m[3] for dp in c['expected'] for m in dp):
+                cases.append(c)
+        wd = os.path.join(ck.scratch, 'c05s%d' % idx)
+        os.makedirs(wd)
+        cfg = {'default_experiment': 'T', 'default_data_file': 't.data', 'runs': {'invocations': n_inv},
+               'benchmark_suites': {'S': {'gauge_adapter': {'ReBenchLog': 'RebenchLog'}.get(adapter, adapter),
+                                          'command': 'h %(benchmark)s', 'benchmarks': ['B']}},
+               'executors': {'E': {'path': '.', 'executable': 'exe'}},
+               'experiments': {'T': {'suites': ['S'], 'executions': ['E']}}}
+        conf = drive.write_config(wd, cfg)
+        state = {'n': 0}
+
+        def script(rec, cases=cases, state=state):
+            k = state['n']
+            state['n'] += 1
+            return drive.Outcome(0, cases[min(k, len(cases) - 1)]['text'])
+        r = drive.run_session(wd, [conf], script)
+        ck.impl_traces += 1
+        rows = drive.read_data_file(os.path.join(wd, 't.data'))['rows']
+        want = []
+        for i, c in enumerate(cases):
+            for dp in c['expected']:
+                for m in dp:
+                    want.append((i + 1, m[1], m[2], m[3], m[4]))
+        inp = {'kind': 'session', 'adapter': adapter, 'outputs': [c['text'] for c in cases]}
+        ck.count('session:' + adapter)
+        ck.case(nontrivial_key=('session', adapter, tuple(c['text'] for c in cases)))
+        problem = None
+        if r.crash or r.status() != 'ok':
+            problem = 'session ended %s %r' % (r.status(), r.crash)
+        elif len(rows) != len(want):
+            problem = 'rows %d, expected %d' % (len(rows), len(want))
+        else:
+            for row, w in zip(rows, want):
+                got = (int(row[0]), int(row[1]), row[4], row[3])
+                if got != (w[0], w[1], w[2], w[3]):
+                    problem = 'row %r, expected %r' % (got, w[:4])
+                    break
+                v = w[4]
+                if v[0] == 'f':
+                    if abs(Fraction(row[2]) - v[1]) > abs(v[1]) * Fraction(1, 10 ** 9) + Fraction(6, 10 ** 7):
+                        problem = 'value %r, expected %r' % (row[2], float(v[1]))
+                        break
+                elif v[0] == 'b':
+                    if row[2] != str(v[1]):
+                        problem = 'value %r, expected %r' % (row[2], v[1])
+                        break
+                elif v[0] == 'i':
+                    if Fraction(row[2]) != v[1]:
+                        problem = 'value %r, expected %r' % (row[2], v[1])
+                        break
+        if problem:
+            ck.oracle_fail('session_rows', inp, {'problem': problem, 'status': r.status(), 'rows': rows[:10]},
+                           {'adapter': adapter, 'eol': 'crlf' if any('\r' in c['text'] for c in cases) else 'lf'})
+
+
 # -------------------------------------------------------------------- corpus
 def corpus_cases():
     d = os.path.join(lib.VERIF, 'harness', 'corpus', 'C05')
@@ -501,6 +568,7 @@ def run(ck):
     for i in range(0, len(cases), 14000):
         check_roundtrip(ck, cases[i:i + 14000])
     check_recognisers(ck, 2000 if quick else 100000)
+    session_cases(ck, 12 if quick else 200)
 
 
 def replay(ck, data):
@@ -508,6 +576,9 @@ def replay(ck, data):
     inp = data['input']
     if inp.get('kind') == 'roundtrip':
         check_roundtrip(ck, [from_stored(inp)])
+    elif inp.get('kind') == 'session':
+        ck.notes.append('session replays are re-generated from the seed: VERIF_SEED=%s' % data.get('seed'))
+        session_cases(ck, 12)
     else:
         pats = da.patterns()
         name, line = inp['re'], inp['line']
